@@ -4,7 +4,7 @@
    data (signed tensors included), on the iteration caps or on when the loops stop.
    vnn v = every entry of the vector >= 0;  mnn M = every entry of the matrix >= 0;  vge eps v = every entry >= eps. *)
 From Coq Require Import List Arith Bool Reals QArith ZArith Lra.
-From TLV Require Import Base.Shape Base.PyList Base.Tensor Base.Ops Model.Nonneg Model.NonnegSign Model.NonnegFlow Model.NonnegOptions Proofs.NonnegProofs Proofs.NonnegProofs2 Proofs.NonnegSignProofs Proofs.NonnegFlowProofs Proofs.NonnegOptionsProofs Model.NonnegP2Ls Proofs.NonnegP2LsProofs Proofs.NonnegFlowPeelProofs Model.NonnegCcpSpec Proofs.NonnegCcpSpecProofs.
+From TLV Require Import Base.Shape Base.PyList Base.Tensor Base.Ops Model.Nonneg Model.NonnegSign Model.NonnegFlow Model.NonnegOptions Proofs.NonnegProofs Proofs.NonnegProofs2 Proofs.NonnegSignProofs Proofs.NonnegFlowProofs Proofs.NonnegOptionsProofs Model.NonnegP2Ls Proofs.NonnegP2LsProofs Proofs.NonnegFlowPeelProofs Model.NonnegCcpSpec Proofs.NonnegCcpSpecProofs Proofs.NonnegRound7Proofs.
 Import ListNotations.
 Open Scope R_scope.
 
@@ -230,6 +230,16 @@ Theorem C10_nn_spec_negative_key : forall (n k : nat), (0 < k <= n)%nat -> py_in
 Proof. exact py_index_neg. Qed.
 Print Assumptions C10_nn_spec_negative_key.
 
+(* built-in initialisation, then constrained_parafac with the raw non_negative argument: no hypothesis on the start is left *)
+Theorem C10_init_then_constrained_parafac_spec : forall (n : nat) (spec : nn_spec) (other : nat -> list (list R) -> list (list R)) (raw Ds : list (list (list R)))
+         (split : nat -> @ccp_state R -> nat -> list (list R) -> list (list R) -> list (list R)) (inner : nat -> @ccp_state R -> nat -> nat)
+         (stop : nat -> @ccp_state R -> bool) (fixed : option (list nat)) (n_iter_max : nat),
+  forall m, In m (registered n spec) ->
+    mnn (nth m (fst (constrained_parafac Rops (registered n spec) other split inner stop (modes_of n (unfix_last n (parse_fixed fixed))) n_iter_max
+                                         (initialize_ccp Rops (registered n spec) other raw, Ds))) []).
+Proof. exact init_then_constrained_parafac_spec. Qed.
+Print Assumptions C10_init_then_constrained_parafac_spec.
+
 (* ---- round 7: PARAFAC2 with a USER-SUPPLIED line-search object (a _BroThesisLineSearch instance is used as it is and clips on its OWN nn_modes,
         Model/NonnegP2Ls.v).  Genuine gap of the implementation (known finding parafac2_user_linesearch_own_nn_modes): an instance whose nn_modes lack a
         declared mode returns the unclipped extrapolation of that mode when a jump is accepted. *)
@@ -253,6 +263,18 @@ Theorem C10_parafac2_user_linesearch_partial : forall (nrm : list R -> R), (fora
   vnn (fst out) /\ forall m, In m nn_modes -> mnn (nth m (snd out) []).
 Proof. exact parafac2_ls_nonneg. Qed.
 Print Assumptions C10_parafac2_user_linesearch_partial.
+(* the same from the built-in initialisations (projected on the declared modes): ANY raw signed factors *)
+Theorem C10_init_then_parafac2_user_linesearch : forall (nrm : list R -> R), (forall v, 0 <= nrm v) ->
+  forall (nn_modes ls_nn_modes : list nat) (raw : list (list (list R))) (Rk : nat)
+         (utm utu : nat -> nat -> @cp_state R -> nat -> list (list R)) (solve : list (list R) -> list (list R) -> list (list R))
+         (inner : nat -> nat -> @cp_state R -> nat -> nat) (istop : nat -> nat -> @cp_state R -> bool)
+         (n_iter_parafac : nat) (line : nat -> option R) (accept : nat -> @cp_state R -> bool) (normalize : bool) (stop : nat -> @cp_state R -> bool) (n_iter_max : nat),
+  incl nn_modes ls_nn_modes ->
+  let out := parafac2_ls Rops nrm utm utu solve inner istop nn_modes ls_nn_modes n_iter_parafac line accept normalize stop n_iter_max
+               (repeat (f1 Rops) Rk, initialize_parafac2_nn Rops nn_modes raw) in
+  vnn (fst out) /\ forall m, In m nn_modes -> mnn (nth m (snd out) []).
+Proof. exact init_then_parafac2_ls. Qed.
+Print Assumptions C10_init_then_parafac2_user_linesearch.
 (* the decomposition's own line search (linesearch=True) is the instance ls_nn_modes = nn_modes: the model of C10_parafac2 *)
 Theorem C10_parafac2_own_linesearch : forall (nrm : list R -> R) utm utu solve inner istop nn_modes n_iter_parafac line accept normalize stop n_iter_max init,
   parafac2_ls Rops nrm utm utu solve inner istop nn_modes nn_modes n_iter_parafac line accept normalize stop n_iter_max init
@@ -492,3 +514,11 @@ Example C10_nn_spec_examples :
   declared 3 (NSDict [(0%Z, false); (1%Z, true)]) = [1%nat] /\ declared 3 (NSList [true]) = [0%nat] /\
   declared 3 (NSList [true; false; true]) = [0%nat; 2%nat] /\ declared 3 (NSBool false) = [] /\ declared 3 (NSDict []) = [] /\ declared 2 (NSBool true) = [0%nat; 1%nat].
 Proof. exact spec_examples. Qed.
+
+(* the order of the l1 shift and the projection in the HALS row update matters (the model follows the code: shift, then clip - C10_hals_row_ge holds for any sparsity
+   coefficient); the other order leaves an entry on the bound at -sparsity / UtU[k, k] *)
+Example C10_hals_shift_then_clip_order_matters :
+  hals_row Qops 0%Q (Some (1 # 2)%Q) None [[(-1)%Q]] [[2%Q]] [[1%Q]] 0 = [[0%Q]] /\
+  hals_row_shift_after Qops 0%Q (Some (1 # 2)%Q) None [[(-1)%Q]] [[2%Q]] [[1%Q]] 0 = [[(-1 # 4)%Q]] /\
+  hals_row_shift_after Qops 0%Q None None [[(-1)%Q]] [[2%Q]] [[1%Q]] 0 = hals_row Qops 0%Q None None [[(-1)%Q]] [[2%Q]] [[1%Q]] 0.
+Proof. exact hals_order_matters. Qed.
